@@ -50,6 +50,16 @@ def jose(repo):
     lines.append("def possibleUnsafeKeys : List (List UInt8) := [")
     lines.append(",\n".join("  " + lean_bytes(p) for p in pref) + "]")
     lines.append("")
+    markers = getattr(oct_key, "POSSIBLE_UNSAFE_MARKERS", ())
+    lines.append("/-- `OctKey` refuses raw keys containing one of these anywhere -/")
+    lines.append("def possibleUnsafeMarkers : List (List UInt8) := [" + ", ".join(lean_bytes(m) for m in markers) + "]")
+    lines.append("")
+    lines.append("/-- `SSH_PUBLIC_PREFIX` of the asymmetric key classes (what `load_pem_key` hands to the SSH loader) -/")
+    lines.append("def sshPublicPrefixes : List (List UInt8) := [" + ", ".join(lean_bytes(c.SSH_PUBLIC_PREFIX) for c in (rsa_key.RSAKey, ec_key.ECKey, okp_key.OKPKey)) + "]")
+    from authlib.jose.rfc7517.base_key import Key as _K
+    lines.append("def privateKeyOps : List String := " + lean_str_list(list(_K.PRIVATE_KEY_OPS)))
+    lines.append("def publicKeyOps : List String := " + lean_str_list(list(_K.PUBLIC_KEY_OPS)))
+    lines.append("")
     lines.append("def registeredHeaderParameterNames : List String := " + lean_str_list(sorted(JsonWebSignature.REGISTERED_HEADER_PARAMETER_NAMES)))
     lines.append("")
     for nm, cls in (("rsa", rsa_key.RSAKey), ("ec", ec_key.ECKey), ("okp", okp_key.OKPKey)):
